@@ -574,6 +574,32 @@ def pos_over_same(x, pos, fam, depth=0):
         if all(rs):
             return "both branches yield a bound <= len"
         return None
+    # position(..).map_or(len, |p| p + 1)  /  position(..).map(|p| p + 1).unwrap_or(len)
+    if depth < 3 and F.is_call(pos_n, "std::option::Option::<T>::map_or", "std::option::Option::<T>::unwrap_or"):
+        is_map_or = pos_n["fn"]["path"].endswith("map_or")
+        recv = FL.peel(pos_n["args"][0])
+        clo = pos_n["args"][2] if is_map_or else None
+        if not is_map_or and F.is_call(recv, "std::option::Option::<T>::map"):
+            clo = recv["args"][1]
+            recv = FL.peel(recv["args"][0])
+        dflt = pos_over_same(x, pos_n["args"][1], fam, depth + 1)
+        if dflt and F.is_call(recv, *POSITION_CALLS) and iter_source(recv["args"][0]) is not None \
+                and FL.same_place(iter_source(recv["args"][0]), x) and not (reassigned(x, fam) and F.strip(x).get("k") in ("Var", "Upvar")):
+            if clo is None:
+                return "position() payload or a bound <= len (unwrap_or)"
+            cn = F.strip(clo)
+            cb = next((m for m in fam.members[1:] if cn.get("k") == "Closure" and m["path"] == cn.get("def")), None)
+            if cb is not None:
+                ps = [p_["pat"] for p_ in cb["params"] if p_.get("pat")]
+                body = FL.peel(cb["body"])
+                if len(ps) == 1 and ps[0].get("k") == "Bind":
+                    pid = ps[0]["id"]
+                    if body.get("k") in ("Var", "Upvar") and body["id"] == pid:
+                        return "position() payload (via map_or) or a bound <= len"
+                    if body.get("k") == "Binary" and body["op"] == "Add" and int_lit(body["r"]) == 1 \
+                            and FL.peel(body["l"]).get("k") in ("Var", "Upvar") and FL.peel(body["l"])["id"] == pid:
+                        return "position() payload + 1 (via map_or) or a bound <= len"
+        return None
     if pos_n.get("k") not in ("Var", "Upvar"):
         return None
     srcs = fam.origins.sources(pos_n["id"])
@@ -582,7 +608,8 @@ def pos_over_same(x, pos, fam, depth=0):
     if len(srcs) == 1 and srcs[0][0] == () and srcs[0][2] == "let" and srcs[0][1] is not None and depth < 3 \
             and not fam.origins.is_reassigned(pos_n["id"]):
         init = FL.peel(srcs[0][1]) if FL.try_operand(F.strip(srcs[0][1])) is None else None
-        if init is not None and init.get("k") in ("Match", "If", "Binary"):
+        if init is not None and (init.get("k") in ("Match", "If", "Binary")
+                                 or F.is_call(init, "std::option::Option::<T>::map_or", "std::option::Option::<T>::unwrap_or")):
             return pos_over_same(x, init, fam, depth + 1)
     for path, expr, how in srcs:
         if expr is None:
